@@ -262,6 +262,57 @@ def run_interference(ctl: explorer.Ctl, cfg: Dict[str, Any]) -> Dict[str, Any]:
     return {"outcome": f"lines={len(lines)}/broken={broken}", "cfg": cfg, "violations": viol}
 
 
+RUN_SJ = "vf.checks.c06:run_send_json"
+
+
+def run_send_json(ctl: explorer.Ctl, cfg: Dict[str, Any]) -> Dict[str, Any]:
+    """The client's own send_json() entry point, alone and mixed with the write stream, then the write stream is closed."""
+    from chuk_mcp.transports.stdio.stdio_client import StdioClient
+
+    table = _items()
+    loop = new_loop(horizon=30)
+    q = seams.Quiescence(loop)
+    proc = seams.FakeProcess()
+    seq = [(table[i], via) for i, via in cfg["seq"]]
+    info: Dict[str, Any] = {}
+
+    async def main():
+        with seams.patched_open_process(lambda cmd, kw: proc):
+            async with StdioClient(seams.stdio_params()) as client:
+                read, write = client.get_streams()
+                for (name, mk, exp), via in seq:
+                    if via == "send_json":
+                        await client.send_json(mk())
+                    else:
+                        await write.send(mk())
+                await q.settle()
+                await write.aclose()
+                await q.settle()
+                info["closed_after"] = proc.stdin.closed
+
+    status, val = loop.run_main(main())
+    errors = loop.collect_errors()
+    loop.abandon()
+    names = [f"{t[0]}@{via}" for t, via in seq]
+    viol: List[dict] = []
+    if status != "ok":
+        return {"outcome": status, "violations": [{"sig": {"class": "did-not-finish", "part": "send_json"}, "msg": f"{names}: {status} {val!r}"}]}
+    expected = [t[2] for t, via in seq if t[2] is not None]
+    lines = bytes(proc.stdin.data).split(b"\n")[:-1]
+    try:
+        decoded = [json.loads(l.decode("utf-8")) for l in lines]
+    except Exception:
+        decoded = None
+    if decoded is None or len(decoded) != len(expected) or not all(strict_eq(a, b) for a, b in zip(decoded, expected)):
+        viol.append({"sig": {"class": "content-changed", "part": "send_json"}, "msg": f"{names}: stdin lines {lines[:3]!r}"})
+    if not info.get("closed_after"):
+        viol.append({"sig": {"class": "stdin-not-closed", "part": "send_json"},
+                     "msg": f"{names}: the write stream was closed but the child's stdin was not"})
+    if errors:
+        viol.append({"sig": {"class": "loop-error"}, "msg": f"{errors[:2]}"})
+    return {"outcome": f"lines={len(lines)}/closed={info.get('closed_after')}", "violations": viol}
+
+
 def _family(n: str) -> str:
     return n.split("-")[0]
 
@@ -297,6 +348,11 @@ def run(tier: str, only=None) -> core.Result:
              for s in ("typed", "dict", "str")]
     out = explorer.explore(RUN, cfgs2, fidelity=True)
     sched.absorb(res, f"payload-json-depth{depth}", RUN, out, cfgs2)
+    ser = [i for i, t in enumerate(_items()) if t[2] is not None and not t[0].startswith("str-")][:6]
+    sj = [{"seq": [[a, va]]} for a in ser for va in ("send_json", "write")]
+    sj += [{"seq": [[a, va], [b, vb]]} for a in ser[:4] for b in ser[:4] for va in ("send_json", "write") for vb in ("send_json", "write")]
+    out = explorer.explore(RUN_SJ, sj, fidelity=True)
+    sched.absorb(res, "send_json-entry-point", RUN_SJ, out, sj, min_outcomes=1)
     xcfgs = [{"size": sz, "count": c, "yields": y, "batch": b} for sz in (10, 70000) for c in (1, 2) for y in (0, 1, 2, 3)
              for b in ("none", "before", "between", "after")]
     out = explorer.explore(RUN_X, xcfgs, fidelity=True)
